@@ -54,7 +54,11 @@ class C18(Prop):
         return [{"kind": "part", "alts": [1, 2, 3], "orders": [[2, 3, 1], [3, 1, 2], [1, 2, 3]]},
                 # D19: the depth-first search misses the 2-axis partition {1,5}, {6,4,3,2}
                 {"kind": "part", "alts": [1, 2, 3, 4, 5, 6],
-                 "orders": [[1, 2, 3, 4, 5, 6], [5, 2, 3, 4, 1, 6], [5, 1, 4, 3, 6, 2]]}] + super().corpus()
+                 "orders": [[1, 2, 3, 4, 5, 6], [5, 2, 3, 4, 1, 6], [5, 1, 4, 3, 6, 2]]},
+                # an L-set of four alternatives whose later segmentations matter (from seeded change C18-m3)
+                {"kind": "part", "alts": [1, 2, 3, 4, 5, 6, 7],
+                 "orders": [[1, 2, 5, 7, 6, 3, 4], [3, 4, 6, 7, 5, 1, 2], [1, 5, 6, 2, 7, 4, 3], [3, 6, 4, 7, 2, 5, 1]]},
+                ] + super().corpus()
 
     def finding_predicates(self):
         # D19: the pinned algorithm itself (as modelled in Lean, output-identical to the real function) misses the
@@ -77,6 +81,16 @@ class C18(Prop):
                     if m >= 2:
                         a, b = rng.sample(range(m), 2)
                         orders[k][a], orders[k][b] = orders[k][b], orders[k][a]
+            elif rng.random() < 0.4 and m >= 5:
+                # large L-sets: several voters with pairwise distinct bottoms, level after level
+                nn = min(4, m // 2 + 1)
+                orders = []
+                base = gen.perm(rng, alts)
+                for v in range(nn):
+                    o = gen.perm(rng, alts)
+                    tail = [base[(v + t * nn) % m] for t in range(2)]
+                    o = [a for a in o if a not in tail] + tail[::-1]
+                    orders.append(o)
             else:
                 orders = [gen.perm(rng, alts) for _ in range(nn)]
             c = {"kind": "part", "alts": alts, "orders": dedup(orders)}
